@@ -24,7 +24,7 @@ SCHED_PATH = ("sched",)
 LEVEL = "exploration"
 QUICK_N = 400
 SCENARIO_TIMEOUT = 180
-PROBES = ["tie_mode", "score_exactly_zero", "quantised_scores", "best_ranked_rows_are_decoys", "another_collection_analysed_before_in_process", "dedup_off", "rollup_off", "decoys_off", "multi_collection", "no_prefix_multi", "empty_string_prefix", "lower_is_better_scores", "failed_attempt_with_same_arguments_first", "checksum_colliding_peptides",
+PROBES = ["tie_mode", "score_exactly_zero", "quantised_scores", "best_ranked_rows_are_decoys", "another_collection_analysed_before_in_process", "dedup_off", "rollup_off", "decoys_off", "multi_collection", "no_prefix_multi", "empty_string_prefix", "lower_is_better_scores", "failed_attempt_with_same_arguments_first", "checksum_colliding_peptides", "rollup_input_without_decoy_files",
           "level_cols", "parquet", "spill_files>=2", "group_cut_by_chunk", "merge_chunk_small", "workers>1",
           "switches>0", "listing_permuted", "rollup_tool", "rollup_tool_multi_root", "degenerate_level",
           "conf_chunk_1", "level_batch_flush"]
@@ -124,7 +124,8 @@ def make_scenario(seed):
         scn["conf"]["prefixes"] = None
         scn["format"] = "pin"
         scn["row_group"] = None
-        scn["rollup_tool"] = {"roots": [chr(97 + i) for i in range(n_coll)], "level": "psm"}
+        scn["rollup_tool"] = {"roots": [chr(97 + i) for i in range(n_coll)], "level": "psm",
+                              "drop_decoys_of": rng.randrange(3) if rng.random() < 0.4 else None}
     return scn
 
 
@@ -455,6 +456,13 @@ def _run_rollup_tool(scn, tables, scores, workdir):
         if r0.exc is not None:
             return {"status": "uninformative", "message": f"input production failed: {r0.error}", "digest": digest(scn),
                     "nontrivial": False, "probes": {"rollup_tool": 1}}
+    no_decoys = None
+    if scn["rollup_tool"].get("drop_decoys_of") is not None and len(roots) > 1:
+        # one of the earlier analyses was run without decoy output: fewer decoy files than target files
+        no_decoys = roots[scn["rollup_tool"]["drop_decoys_of"] % len(roots)]
+        for f in os.listdir(src):
+            if f.startswith(f"{no_decoys}.decoys."):
+                os.unlink(src / f)
     inputs = {}
     for f in sorted(os.listdir(src)):
         with open(src / f, "rb") as fh:
@@ -462,6 +470,7 @@ def _run_rollup_tool(scn, tables, scores, workdir):
     dest = Path(workdir) / "dest"
     res = W.run_rollup(src, dest, level="psm", sched_desc=scn.get("sched"), knobs=kn, glob_seed=scn.get("glob_seed"))
     probes = {"rollup_tool": 1, "rollup_tool_multi_root": int(len(roots) > 1), "level_cols": int(bool(level_cols)),
+              "rollup_input_without_decoy_files": int(no_decoys is not None),
               "listing_permuted": int(res.fs.glob_multi > 0)}
     out = {
         "status": "ok",
@@ -481,7 +490,7 @@ def _run_rollup_tool(scn, tables, scores, workdir):
     # union of the PSM-level inputs
     union = []
     for root in roots:
-        for o in _parse_level_files(inputs, f"{root}.", "psms", True):
+        for o in _parse_level_files(inputs, f"{root}.", "psms", root != no_decoys):
             union.append(o)
     ids = [o["PSMId"] for o in union]
     if len(set(ids)) != len(ids):
